@@ -141,6 +141,14 @@ func casesFen(c *caseCtx) {
 		if c.r.Intn(3) == 0 {
 			start = fen.Initial
 		}
+		if g < 12 {
+			// corner rooks with castling rights next to promoting pawns, knights, kings: the castling field
+			// of the reported FEN after captures on the corners
+			corner := []string{"r3k2r/1P4P1/8/8/8/8/1p4p1/R3K2R w KQkq - 0 1", "r3k2r/1P4P1/8/8/8/8/1p4p1/R3K2R b KQkq - 3 9",
+				"4k2r/6K1/8/8/8/8/1r6/8 w k - 0 1", "8/8/8/8/8/8/6k1/4K2R b K - 5 40", "r3k2r/2N2N2/8/8/8/8/2n2n2/R3K2R w KQkq - 0 1",
+				"r3k2r/8/8/3BB3/3bb3/8/8/R3K2R w KQkq - 0 1"}
+			start = corner[g%len(corner)]
+		}
 		e := engine.New(ctx, "t", "t", search.AlphaBeta{Eval: search.Leaf{Eval: eval.Material{}}})
 		if err := e.Reset(ctx, start); err != nil {
 			continue
@@ -157,6 +165,14 @@ func casesFen(c *caseCtx) {
 				ops = append(ops, "tb")
 			} else if len(moves) > 0 {
 				m := pickMove(c, moves)
+				if g < 12 && k < 2 {
+					// first the captures on the corner squares
+					for _, x := range moves {
+						if x.IsCapture() && (x.To == board.A1 || x.To == board.H1 || x.To == board.A8 || x.To == board.H8) && c.r.Intn(2) == 0 {
+							m = x
+						}
+					}
+				}
 				str := uciMove(m)
 				if err := e.Move(ctx, str); err != nil {
 					break
